@@ -115,7 +115,7 @@ func verifyFunction(L *Loaded, fn *ssa.Function, fs *FuncSpec) (res *FuncResult)
 			}
 		}
 	}
-	st0 := &State{heaps: map[string]Term{}, roots: map[string][]string{}, epoch: 0}
+	st0 := &State{heaps: map[string]Term{}, roots: map[string][]string{}, cells: map[int]Val{}, epoch: 0}
 	st0.nalloc = vc.declare("nalloc!0", SInt)
 	vc.assume(Term{"(>= nalloc!0 0)", SBool})
 	vc.rootBound["!e0"] = st0.nalloc
@@ -132,9 +132,12 @@ func verifyFunction(L *Loaded, fn *ssa.Function, fs *FuncSpec) (res *FuncResult)
 	fname := res.Name
 	// requires
 	for _, cl := range fs.Clauses {
-		if cl.Kind == "requires" {
+		if cl.Kind == "requires" || cl.Kind == "assumes" {
 			if cf := vc.clauseFn(cl); cf != nil {
 				vc.assume(vc.evalSpec(cf, args, st0, st0).T)
+			}
+			if cl.Kind == "assumes" {
+				vc.assumed[fmt.Sprintf("assumes clause of %s: %s", fname, cl.Text)] = true
 			}
 		}
 	}
@@ -186,95 +189,21 @@ func verifyFunction(L *Loaded, fn *ssa.Function, fs *FuncSpec) (res *FuncResult)
 			}
 		}
 	}
-	// normal exit (merged)
+	// normal exits: checked one by one when there are few, merged otherwise
 	if len(exits) > 0 {
-		var conds []Term
-		var sts []*State
-		for _, e := range exits {
-			conds = append(conds, e.Cond)
-			sts = append(sts, e.St)
-		}
-		cond := vc.name("exit", orFactor(conds))
-		st := vc.mergeStates(conds, sts)
-		var resList []Val
-		nres := len(exits[0].Res)
-		for k := 0; k < nres; k++ {
-			var vs []Val
-			for i := range exits {
-				vs = append(vs, exits[i].Res[k])
-			}
-			v := vc.mergeVals(conds, vs)
-			if v.Tup == nil {
-				v.T = vc.name("result", v.T)
-			}
-			resList = append(resList, v)
-		}
-		full := append(append([]Val{}, args...), resList...)
-		vc.obls = append(vc.obls, &Obl{Name: fname + "#cover(exit)", Kind: "cover", Guard: cond, Goal: tTrue, NAss: len(vc.asserts), Cover: true})
-		if hasPanics {
-			vc.oblige("panics<=", fmt.Sprintf("%s#panics<=[normal exit]", fname), cond, not(P), 0)
-		}
-		for _, cl := range fs.Clauses {
-			if cl.Kind == "ghost" {
-				if cf := vc.clauseFn(cl); cf != nil {
-					a := full
-					if len(a) > len(cf.Params) {
-						a = a[:len(cf.Params)]
-					}
-					st = vc.execGhost(cf, a, st, st0)
-				}
+		groups := [][]Exit{exits}
+		if len(exits) <= 4 {
+			groups = nil
+			for _, e := range exits {
+				groups = append(groups, []Exit{e})
 			}
 		}
-		for k, cl := range fs.Clauses {
-			if cl.Kind == "ensures" {
-				if cf := vc.clauseFn(cl); cf != nil {
-					r := vc.evalSpec(cf, full, st, st0)
-					vc.obligeSplit("post", fmt.Sprintf("%s#post[%s]", fname, clauseLabel(cl, k)), cond, r.T, cl)
-				}
+		for gi, g := range groups {
+			suffix := ""
+			if len(groups) > 1 {
+				suffix = fmt.Sprintf("@exit%d[%s]", gi+1, vc.srcLine(g[0].Pos))
 			}
-		}
-		// frame
-		entries, has := vc.resolveModifies(fs, full, st0)
-		if has {
-			if st.epoch != 0 {
-				unsup("frame cannot be checked after a callback havoc")
-			}
-			var names []string
-			for h := range st.heaps {
-				names = append(names, h)
-			}
-			sort.Strings(names)
-			for _, h := range names {
-				pre := vc.preHeap(h, 0)
-				fin := st.heaps[h]
-				if fin.S == pre.S {
-					continue
-				}
-				if vc.isGhostHeap(h) {
-					continue
-				}
-				q := vc.freshConst("q_frame", SPtr)
-				c, _ := notInMod(entries, h, q)
-				_, vs := arrayParts(pre.Sort)
-				// freshly allocated memory is not part of the caller-visible frame
-				visible := Term{fmt.Sprintf("(<= (alloc %s) nalloc!0)", q.S), SBool}
-				vc.oblige("frame", fmt.Sprintf("%s#frame[%s]", fname, h), and(cond, visible, c), eq(sel(fin, q, vs), sel(pre, q, vs)), 0)
-				// map entries with a specific key
-				for _, e := range entries {
-					if !e.isMap || e.mkey.S == "" {
-						continue
-					}
-					for _, eh := range e.heap {
-						if eh != h || strings.HasPrefix(h, "ML_") {
-							continue
-						}
-						ks, es := arrayParts(vs)
-						kq := vc.freshConst("k_frame", ks)
-						vc.oblige("frame", fmt.Sprintf("%s#frame[%s other keys]", fname, h), and(cond, not(eq(kq, e.mkey))),
-							eq(sel(sel(fin, e.key, vs), kq, es), sel(sel(pre, e.key, vs), kq, es)), 0)
-					}
-				}
-			}
+			vc.checkExit(fs, fname, suffix, g, args, st0, hasPanics, P)
 		}
 	} else if !hasPanics {
 		res.Err = "function has no normal exit"
@@ -288,6 +217,93 @@ func verifyFunction(L *Loaded, fn *ssa.Function, fs *FuncSpec) (res *FuncResult)
 }
 
 func (vc *VC) isGhostHeap(h string) bool { return false }
+
+func (vc *VC) checkExit(fs *FuncSpec, fname, suffix string, exits []Exit, args []Val, st0 *State, hasPanics bool, P Term) {
+	var conds []Term
+	var sts []*State
+	for _, e := range exits {
+		conds = append(conds, e.Cond)
+		sts = append(sts, e.St)
+	}
+	cond := vc.name("exit", orFactor(conds))
+	st := vc.mergeStates(conds, sts)
+	var resList []Val
+	nres := len(exits[0].Res)
+	for k := 0; k < nres; k++ {
+		var vs []Val
+		for i := range exits {
+			vs = append(vs, exits[i].Res[k])
+		}
+		v := vc.mergeVals(conds, vs)
+		if v.Tup == nil {
+			v.T = vc.name("result", v.T)
+		}
+		resList = append(resList, v)
+	}
+	full := append(append([]Val{}, args...), resList...)
+	vc.obls = append(vc.obls, &Obl{Name: fname + "#cover(exit)" + suffix, Kind: "cover", Guard: cond, Goal: tTrue, NAss: len(vc.asserts), Cover: true})
+	if hasPanics {
+		vc.oblige("panics<=", fmt.Sprintf("%s#panics<=[normal exit]%s", fname, suffix), cond, not(P), 0)
+	}
+	for _, cl := range fs.Clauses {
+		if cl.Kind == "ghost" {
+			if cf := vc.clauseFn(cl); cf != nil {
+				a := full
+				if len(a) > len(cf.Params) {
+					a = a[:len(cf.Params)]
+				}
+				st = vc.execGhost(cf, a, st, st0)
+			}
+		}
+	}
+	for k, cl := range fs.Clauses {
+		if cl.Kind == "ensures" {
+			if cf := vc.clauseFn(cl); cf != nil {
+				r := vc.evalSpec(cf, full, st, st0)
+				vc.obligeSplit("post", fmt.Sprintf("%s#post[%s]%s", fname, clauseLabel(cl, k), suffix), cond, r.T, cl)
+			}
+		}
+	}
+	// frame
+	entries, has := vc.resolveModifies(fs, full, st0)
+	if has {
+		if st.epoch != 0 {
+			unsup("frame cannot be checked after a callback havoc")
+		}
+		var names []string
+		for h := range st.heaps {
+			names = append(names, h)
+		}
+		sort.Strings(names)
+		for _, h := range names {
+			pre := vc.preHeap(h, 0)
+			fin := st.heaps[h]
+			if fin.S == pre.S {
+				continue
+			}
+			q := vc.freshConst("q_frame", SPtr)
+			c, _ := notInMod(entries, h, q)
+			_, vs := arrayParts(pre.Sort)
+			// freshly allocated memory is not part of the caller-visible frame
+			visible := Term{fmt.Sprintf("(<= (alloc %s) nalloc!0)", q.S), SBool}
+			vc.oblige("frame", fmt.Sprintf("%s#frame[%s]%s", fname, h, suffix), and(cond, visible, c), eq(sel(fin, q, vs), sel(pre, q, vs)), 0)
+			for _, e := range entries {
+				if !e.isMap || e.mkey.S == "" {
+					continue
+				}
+				for _, eh := range e.heap {
+					if eh != h || strings.HasPrefix(h, "ML_") {
+						continue
+					}
+					ks, es := arrayParts(vs)
+					kq := vc.freshConst("k_frame", ks)
+					vc.oblige("frame", fmt.Sprintf("%s#frame[%s other keys]%s", fname, h, suffix), and(cond, not(eq(kq, e.mkey))),
+						eq(sel(sel(fin, e.key, vs), kq, es), sel(sel(pre, e.key, vs), kq, es)), 0)
+				}
+			}
+		}
+	}
+}
 
 func (fs *FuncSpec) typeParams() map[string]string {
 	for _, c := range fs.Clauses {
